@@ -256,6 +256,8 @@ PLANS["C02"] = {
                                 "(same documents, different index sets) must conform to the same specification state"],
     "stages": [
         T("twins", "twins", (14, 400), ["InvC02"], chunk=4),
+        # ordinary histories with the sweeps (containers changed in place, indexes and collections dropped and re-created)
+        T("general", "general", (20, 400), ["InvC02"]),
         EDG("edges", ["InvC02"], ops=["Derived", "UpdateFunc", "Delete"], states=(25, 0), reads=(20, 250), writes=(6, 60)),
         # the planner's own visitors, chained as getIndexQueries does: derived range is a superset
         AUX("plan", "plan", (600, 15000), chunk=150),
